@@ -5,7 +5,7 @@ props=$(python3 -c "import json; print(' '.join(c['property_id'] for c in json.l
 rm -rf /tmp/evidence_soak && cp -r evidence /tmp/evidence_soak
 for seed in ${@:-1 2 3}; do
 	for p in $props; do
-		out=$(VERIF_SEED=$seed ./check $p 2>&1); rc=$?
+		out=$(VERIF_SEED=$seed ./check $p --strict 2>&1); rc=$?
 		echo "seed=$seed $p exit=$rc $(echo "$out" | grep -v KNOWN | grep -c VIOLATION) violations; $(echo "$out" | grep 'obligations discharged' | cut -c1-90)"
 		if [ $rc -ne 0 ]; then echo "$out" | grep -v KNOWN | tail -4 | cut -c1-300; fi
 	done
